@@ -426,6 +426,13 @@ class time_limit:
             TIMEOUT_FIRED = True          # wall-clock dependent outcome: excluded from determinism comparisons
             raise InnerTimeout()
         self.t0 = time.time()
+        outer_left, _ = signal.getitimer(signal.ITIMER_REAL)
+        # An outer deadline that comes first stays in charge: replacing it by this (later) one and re-arming it on exit
+        # would postpone it for ever when guarded sections follow each other back to back (observed: a fault sweep of 60
+        # eight-second sections ran for minutes under a 20 s case alarm).
+        self.noop = 0 < outer_left <= self.seconds
+        if self.noop:
+            return self
         self.old_handler = signal.signal(signal.SIGALRM, handler)
         self.remaining, _ = signal.setitimer(signal.ITIMER_REAL, self.seconds)
         return self
@@ -433,10 +440,17 @@ class time_limit:
     def __exit__(self, et, ev, tb):
         import signal
         import time
+        if self.noop:
+            return False
         signal.setitimer(signal.ITIMER_REAL, 0)
         signal.signal(signal.SIGALRM, self.old_handler)
         if self.remaining:
-            left = max(0.01, self.remaining - (time.time() - self.t0))
+            left = self.remaining - (time.time() - self.t0)
+            if left <= 0.002:
+                # the outer deadline passed while this section ran: deliver it now
+                if callable(self.old_handler) and et is None:
+                    self.old_handler(signal.SIGALRM, None)
+                left = 0.002
             signal.setitimer(signal.ITIMER_REAL, left)
         return False
 
